@@ -257,6 +257,9 @@ func (r *Run) Finish() int {
 	}
 	// replay bundles (those of earlier runs of this property are stale: remove them)
 	os.RemoveAll(filepath.Join(root, "replays", r.Prop))
+	// bundles contain .go files: keep them out of the verif module
+	os.MkdirAll(filepath.Join(root, "replays"), 0o755)
+	os.WriteFile(filepath.Join(root, "replays", "go.mod"), []byte("module replays\n"), 0o644)
 	maxPrint := 25
 	for i := range r.viol {
 		v := &r.viol[i]
